@@ -22,6 +22,17 @@ def text_pool(rng, corp, n_valid=4, n_invalid=3):
     pool.append(v.replace(" ", ""))
     pool.append(v.swapcase())
     pool.append(v[:-1])
+    # padding inside a token (between two digits, inside a function name) changes the tokens
+    for _ in range(2):
+        i = rng.randrange(len(v) + 1) if v else 0
+        pool.append(v[:i] + rng.choice([" ", "\t"]) + v[i:])
+    multi = [i for i in range(1, len(v)) if v[i - 1].isdigit() and v[i].isdigit()] + [i for i in range(1, len(v)) if v[i - 1].isalpha() and v[i].isalpha()]
+    if multi:
+        i = rng.choice(multi)
+        pool.append(v[:i] + " " + v[i:])
+    else:
+        pool.append("12 + sgn(x)")
+        pool.append("1 2 + sg n(x)")
     return pool
 
 
